@@ -12,7 +12,8 @@ CONSTANTS
   MaxRuns = 2
   AllowDecor = TRUE
   OnExcChoices = {TRUE, FALSE}
-  PreForceChoices = {TRUE, FALSE}
+  PreForceChoices = {FALSE}
+  XfDecChoices = {TRUE, FALSE}
   StepOps = {"upcall", "addCleanup", "addDetail", "expect", "patch", "useFixture"}
   AllowMulti = FALSE
   Variant = "asRequired"
@@ -20,7 +21,7 @@ CONSTANTS
   GatherOf <- MCGatherOf
   CleanOf <- MCCleanOf
   FixtureSetUpFails <- MCFixtureSetUpFails
-  FixtureFailCount <- MCFixtureFailCount
+  FixtureFailKinds <- MCFixtureFailKinds
   FixtureCleanKind <- MCFixtureCleanKind
   FixtureGatherRaises <- MCFixtureGatherRaises
   FixtureDetails <- MCFixtureDetails
